@@ -1672,8 +1672,11 @@ class TrajectoryStore:
                 if Dimension.POINT in field.dimensions and npoints is None:
                     if Dimension.SPECIES in field.dimensions:
                         # Get number of points from arbitrary entry in the
-                        # SpeciesValues dictionary here.
-                        npoints = len(next(iter(data[name].values())))
+                        # SpeciesValues dictionary here. (A field that holds
+                        # no species at all says nothing about the number of
+                        # points: leave that to another field.)
+                        if len(data[name]) > 0:
+                            npoints = len(next(iter(data[name].values())))
                     else:
                         # Data should be a simple Numpy array here.
                         npoints = len(data[name])
